@@ -127,11 +127,12 @@ def newExtractor (fromEnd : Bool) (pattern : Bytes) (maxRange : Nat) : Option Ex
       | none => none
       | some t => some { fromEnd, left := l, right := r, maxRange, valid := some t }
 
-/-- `validChars[c]` — panics on a nil table (index out of range) -/
+/-- `validChars[c]` with `c` a Go `byte`: panics (index out of range) on a nil table or a table that does
+not have all 256 entries; a byte can never exceed the index range of a full table -/
 def tableAt (t : Option (List Bool)) (c : Nat) : GoM Bool :=
   match t with
   | none => .error .index
-  | some l => match l[c]? with | some b => .ok b | none => .error .index
+  | some l => if l.length = 256 then .ok (l.getD c false) else .error .index
 
 /-- `matchValidCharsFromStart` -/
 def matchFromStart (t : Option (List Bool)) : Bytes → Nat → GoM Nat
